@@ -235,6 +235,22 @@ func CodecCorpus(packageRoot string, seed int64, nRandom int) *Schema {
 	s.Add(&Named{Ident: Ident{"Mixed", ns2}, Kind: "record", Includes: []Ident{{"Other", ns2}}, Fields: []Field{
 		{Name: "c2", Type: R(ns2, "Color")}, {Name: "cs", Type: A(R(ns, "Color")), Optional: true},
 	}})
+	// fields declared optional AND carrying a default (legal in Pegasus): the default still applies when the field is absent
+	s.Add(&Named{Ident: Ident{"OptDef", ns}, Kind: "record", Fields: []Field{
+		{Name: "n", Type: P("int32"), Optional: true, Default: sp("11")},
+		{Name: "s", Type: P("string"), Optional: true, Default: sp(`"dflt"`)},
+		{Name: "c", Type: R(ns, "Color"), Optional: true, Default: sp(`"GREEN"`)},
+		{Name: "l", Type: A(P("int64")), Optional: true, Default: sp("[1,2]")},
+		{Name: "r", Type: R(ns, "Leaf"), Optional: true, Default: sp(`{"s":"x"}`)},
+		{Name: "plain", Type: P("bool"), Optional: true},
+		{Name: "req", Type: P("string")},
+	}})
+	s.Add(&Named{Ident: Ident{"IncOptDef", ns}, Kind: "record", Includes: []Ident{{"OptDef", ns}}, Fields: []Field{{Name: "own", Type: P("int32"), Optional: true, Default: sp("1")}}})
+	// required fields whose names are string prefixes of one another (at one level and across array items)
+	s.Add(&Named{Ident: Ident{"PrefixNames", ns}, Kind: "record", Fields: []Field{
+		{Name: "id", Type: P("int32")}, {Name: "idType", Type: P("string")}, {Name: "start", Type: P("int64")}, {Name: "startTime", Type: P("int64")},
+		{Name: "window", Type: R(ns, "Leaf")}, {Name: "windows", Type: A(R(ns, "Leaf"))}, {Name: "s", Type: P("string")}, {Name: "s2", Type: R(ns, "Leaf")},
+	}})
 	// includes across namespaces: the included record (with defaults, required fields) lives in another generated package
 	s.Add(&Named{Ident: Ident{"IncCross", ns2}, Kind: "record", Includes: []Ident{{"WithDefaults", ns}}, Fields: []Field{
 		{Name: "own", Type: P("int32"), Default: sp("5")}, {Name: "o", Type: R(ns2, "Other"), Optional: true},
